@@ -19,6 +19,8 @@ pub use lend_join::{JoinLendIter, LendJoinType, RepeatableLendGet};
 pub use maybe::MaybeJoin;
 #[cfg(feature = "parallel")]
 pub use par_join::{JoinParIter, ParJoin};
+#[cfg(all(feature = "parallel", specs_verif))]
+pub use par_join::{verif_with_producer, VerifProducer};
 
 /// The purpose of the `Join` trait is to provide a way
 /// to access multiple storages at the same time with
